@@ -12,7 +12,7 @@ class _StopShrink(BaseException):
     pass
 
 
-def explore(col, strategy, judge, max_examples, seed, shrink_budget_s=45, max_shrinks=2):
+def explore(col, strategy, judge, max_examples, seed, shrink_budget_s=25, max_shrinks=1):
     """Run `judge(case, col)` on `max_examples` draws of `strategy`.
 
     judge returns a list of failure records (possibly empty).  Failures covered by an open known finding are
